@@ -1,7 +1,7 @@
 (* C09 — conditionals and format selectors include or elide exactly their scope. *)
 From Coq Require Import List NArith Bool String.
 Import ListNotations.
-Require Import St Exp Proc1 Proc2 Proc3 Ctl Loop Doc Eqd IfProofs IfTrue.
+Require Import St Exp Proc1 Proc2 Proc3 Ctl Loop Doc Eqd IfProofs IfTrue DefIgnored.
 Require VarProofs.
 Open Scope string_scope.
 
@@ -58,7 +58,20 @@ Theorem C09_restricted_variable_definition_is_absent_partial : forall s o s1 n v
   formats_of f s1 = (fs, s') -> existsb (str_eqb (format s)) fs = false ->
   macro_def_var s ~~ s.
 Proof. exact VarProofs.def_var_for_other_formats_is_absent. Qed.
+(* a format-restricted construct, the macro definition: when the #de line is restricted to formats that do not name the
+   current one (the definition it opens is marked to be skipped), the line, any body without a #. line, and the closing
+   #. line leave the control state unchanged and the rendering state as it was (registers and log apart): nothing is
+   recorded, nothing is defined, a nested #de only logs *)
+Theorem C09_restricted_macro_definition_is_absent : forall pb a l body a2 l2 c s d,
+  let b := BMacro (R "#de") a l in
+  ifdepth s = 0%nat -> udef s = None -> elided s = false -> bf s = None -> panicked s = None ->
+  (inl s = true \/ assoc (R "#de") (umacros s) = None) ->
+  udef (macro_def_start (set_regs b s)) = Some d -> um_ignore d = true ->
+  Forall (fun b => is_defend b = false) body ->
+  exists s', walk pb (b :: body ++ [BMacro (R "#.") a2 l2])%list (c, s) = (c, s') /\ s' =c= s /\ panicked s' = None.
+Proof. exact restricted_definition_is_absent. Qed.
 Print Assumptions C09_false_branch.
+Print Assumptions C09_restricted_macro_definition_is_absent.
 Print Assumptions C09_restricted_variable_definition_is_absent_partial.
 Print Assumptions C09_true_branch_delimiters_partial.
 Print Assumptions C09_end_line_only_pops.
@@ -101,4 +114,21 @@ raw
 .Lk u
 .Em
 ") ["xhtml"; "latex"; "mom"; "markdown"] = true.
+Proof. vm_compute. reflexivity. Qed.
+
+(* the hypotheses of C09_restricted_macro_definition_is_absent are met by a #de -f latex line in an xhtml compilation,
+   and the document equals the one without the definition; the same name defined for this format is in effect *)
+Example C09_restricted_definition_example :
+  same_output "xhtml" ".#de -f latex m
+never
+.#de n
+.#.
+a
+.#de -f xhtml m
+here
+.#.
+.m
+" "a
+here
+" = true.
 Proof. vm_compute. reflexivity. Qed.
